@@ -1,1 +1,293 @@
-/-! # C03 — property theorems (stub: not built yet) -/
+import KM.Lemmas.Validity
+import KM.Gen.C03
+/-! # C03 — every issued certificate is short-lived, whatever duration is requested
+
+Property theorems only.  `certgenDuration` *interprets* the duration block of
+`certGenHandler` as regenerated from the source (`KM.Gen.C03.shape`), `sshWindow` /
+`x509Window` mirror the field arithmetic of `lib/certgen`, `sshOK` / `windowOK` / `fixedOK`
+are the predicates the driver's `judge` applies to what the real code returned.
+
+Conventions: times are `Int` nanoseconds since the Unix epoch; `tb ≤ t1 ≤ t2 ≤ ta` are the
+wall-clock readings "before the call", "`time.Until` in the handler", "`time.Now()` in the
+generator", "after the call"; `iat` is `authInfo.IssuedAt`.  The duration parser is a
+parameter: `Req.parsed nd` carries *whatever* `time.ParseDuration` returned — no range
+restriction on `nd` is needed.  The float step of `uint64(d.Seconds())` is a parameter `fsec`
+constrained only by `FloatSecs` (satisfied by truncation, `truncSecs_floatSecs`; the harness
+tests the contract on the real conversion). -/
+namespace KM.Validity
+open KM.Dur
+
+/-- **Shape**: the duration block of the current source is the repaired block — parse errors,
+negative and over-24-h requests are refused with 400, the remaining request replaces the
+default, the result is clamped by `time.Until(IssuedAt + maxCertificateLifetime)` — every write
+to `duration` is accounted for, and all three issuing calls receive that variable. -/
+theorem c03_shape :
+    KM.Gen.C03.shape = shapeRepaired ∧
+    KM.Gen.C03.maxCertificateLifetime = userCap ∧
+    KM.Gen.C03.durationWritesTotal = KM.Gen.C03.durationWritesModelled ∧
+    KM.Gen.C03.durationSource = "formDuration[0]".toList ∧
+    KM.Gen.C03.parseCall = "time.ParseDuration(stringDuration)".toList ∧
+    KM.Gen.C03.issueArgs = [("postAuthSSHCertHandler", Var.duration),
+      ("postAuthX509CertHandler", Var.duration), ("postAuthX509CertHandler", Var.duration)] := by
+  decide
+
+/-- what the handler does with each kind of request (whatever the clock and the credential) -/
+theorem c03_decision (req : Req) (t1 iat : Int) :
+    certgenDuration KM.Gen.C03.shape KM.Gen.C03.maxCertificateLifetime req t1 iat =
+      match req with
+      | .absent => .issue (clampTo userCap (sat64 (iat + userCap - t1)))
+      | .malformed => .reject 400
+      | .parsed nd =>
+        if nd < 0 then .reject 400 else if nd > userCap then .reject 400
+        else .issue (clampTo nd (sat64 (iat + userCap - t1))) := by
+  rw [c03_shape.1, c03_shape.2.1, certgenDuration_repaired]
+  cases req <;> rfl
+
+/-- the request as a number: the default when the field is absent -/
+def requested : Req → Int
+  | .parsed nd => nd
+  | _ => userCap
+
+/-- an issued duration is the clamp of a request in `[0, 24 h]` -/
+theorem issue_inv {req : Req} {t1 iat d : Int}
+    (h : certgenDuration KM.Gen.C03.shape KM.Gen.C03.maxCertificateLifetime req t1 iat = .issue d) :
+    req ≠ .malformed ∧ 0 ≤ requested req ∧ requested req ≤ userCap ∧
+    d = clampTo (requested req) (sat64 (iat + userCap - t1)) := by
+  rw [c03_decision] at h
+  cases req with
+  | absent =>
+    simp only [Outcome.issue.injEq] at h
+    refine ⟨by simp, by decide, by decide, h.symm⟩
+  | malformed => cases h
+  | parsed nd =>
+    simp only at h
+    split at h
+    · cases h
+    · split at h
+      · cases h
+      · simp only [Outcome.issue.injEq] at h
+        refine ⟨by simp, ?_, ?_, h.symm⟩ <;> simp only [requested] <;> omega
+
+/-- **SSH certificates** (`/certgen/<user>`, type ssh).  For every request, every clock and every
+credential: if the handler issues, then `ValidAfter` is the issuing second (not in the future),
+`ValidBefore` has not wrapped (`0 ≤ · < 2^63`), and the window is either empty or ends no later
+than the requested duration after issuance, 24 h after issuance, and 24 h after the credential
+was authenticated (plus the handler's own running time `ta - tb`). -/
+theorem c03_ssh (fsec : Int → Int) (hf : FloatSecs fsec) (req : Req) (iat tb t1 t2 ta va vb : Int)
+    (hiat0 : 0 ≤ iat) (hiat1 : iat < horizon)
+    (h0 : 0 ≤ tb) (h1 : tb ≤ t1) (h2 : t1 ≤ t2) (h3 : t2 ≤ ta) (h4 : ta < horizon)
+    (h : sshIssue KM.Gen.C03.shape KM.Gen.C03.maxCertificateLifetime fsec req t1 t2 iat = some (va, vb)) :
+    sshOK req iat tb ta va vb = true := by
+  unfold sshIssue at h
+  split at h
+  · rename_i d hd
+    obtain ⟨hm, hr0, hr1, hdd⟩ := issue_inv hd
+    obtain ⟨c1, c2, c3, c4, c5⟩ :=
+      ssh_core fsec hf (requested req) iat tb t1 t2 ta hr0 hr1 hiat0 hiat1 h0 h1 h2 h3 h4
+    rw [← hdd] at c1 c2 c3 c4 c5
+    simp only [Option.some.injEq] at h
+    rw [h] at c1 c2 c3 c4 c5
+    simp only at c1 c2 c3 c4 c5
+    have hreq : reqOK req ta vb = true ∨ ¬ (vb * ns ≤ ta + requested req) := by
+      cases req with
+      | absent => left; rfl
+      | malformed => exact absurd rfl hm
+      | parsed nd =>
+        by_cases hb : vb * ns ≤ ta + nd
+        · left; simp [reqOK, hb]
+        · right; simpa [requested] using hb
+    simp only [sshOK, windowOK, Bool.and_eq_true, Bool.or_eq_true, decide_eq_true_eq]
+    unfold userCap ns horizon two63 at *
+    by_cases hdn : 0 ≤ d
+    · have := c4 hdn
+      refine ⟨⟨⟨by omega, by omega⟩, by omega⟩, by omega, ?_⟩
+      rcases hreq with hq | hq
+      · right; exact ⟨⟨by omega, by omega⟩, hq⟩
+      · exact absurd (by omega) hq
+    · have := c5 (by omega)
+      exact ⟨⟨⟨by omega, by omega⟩, by omega⟩, by omega, Or.inl (by omega)⟩
+  · cases h
+
+/-- SSH, the two regimes spelled out: a credential at most 24 h old gets a window that starts at
+the issuing second and is not inverted; a credential older than 24 h (year-long CLI sessions)
+makes the clamp negative and the code then issues a certificate whose window is *empty*
+(`ValidBefore ≤ ValidAfter`, still without wrap-around). -/
+theorem c03_ssh_window (fsec : Int → Int) (hf : FloatSecs fsec) (req : Req) (iat tb t1 t2 ta va vb : Int)
+    (hiat0 : 0 ≤ iat) (hiat1 : iat < horizon)
+    (h0 : 0 ≤ tb) (h1 : tb ≤ t1) (h2 : t1 ≤ t2) (h3 : t2 ≤ ta) (h4 : ta < horizon)
+    (h : sshIssue KM.Gen.C03.shape KM.Gen.C03.maxCertificateLifetime fsec req t1 t2 iat = some (va, vb)) :
+    va = t2 / ns ∧ (t1 - iat ≤ userCap → va ≤ vb) ∧ (t1 - iat > userCap → vb ≤ va) := by
+  unfold sshIssue at h
+  split at h
+  · rename_i d hd
+    obtain ⟨_, hr0, hr1, hdd⟩ := issue_inv hd
+    obtain ⟨c1, _, _, c4, c5⟩ :=
+      ssh_core fsec hf (requested req) iat tb t1 t2 ta hr0 hr1 hiat0 hiat1 h0 h1 h2 h3 h4
+    obtain ⟨s1, s2⟩ := clamp_sign (requested req) iat t1 hr0
+    rw [← hdd] at c1 c4 c5 s1 s2
+    simp only [Option.some.injEq] at h
+    rw [h] at c1 c4 c5
+    simp only at c1 c4 c5
+    refine ⟨c1, fun hf => ?_, fun hs => ?_⟩
+    · have := c4 (s1 hf); omega
+    · have := c5 (s2 hs); omega
+  · cases h
+
+/-- **X.509 certificates** (types x509 and x509-kubernetes): same bounds for
+`NotBefore`/`NotAfter` (seconds, as encoded in the certificate). -/
+theorem c03_x509 (req : Req) (iat tb t1 t2 ta nb na : Int)
+    (hiat0 : 0 ≤ iat) (hiat1 : iat < horizon)
+    (h0 : 0 ≤ tb) (h1 : tb ≤ t1) (h2 : t1 ≤ t2) (h3 : t2 ≤ ta) (h4 : ta < horizon)
+    (h : x509Issue KM.Gen.C03.shape KM.Gen.C03.maxCertificateLifetime req t1 t2 iat = some (nb, na)) :
+    windowOK req iat tb ta nb na = true ∧ nb = t2 / ns ∧
+    (t1 - iat ≤ userCap → nb ≤ na) ∧ (t1 - iat > userCap → na ≤ nb) := by
+  unfold x509Issue at h
+  split at h
+  · rename_i d hd
+    obtain ⟨hm, hr0, hr1, hdd⟩ := issue_inv hd
+    obtain ⟨c1, c4, c5⟩ :=
+      x509_core (requested req) iat tb t1 t2 ta hr0 hr1 hiat0 hiat1 h0 h1 h2 h3 h4
+    obtain ⟨s1, s2⟩ := clamp_sign (requested req) iat t1 hr0
+    rw [← hdd] at c1 c4 c5 s1 s2
+    simp only [Option.some.injEq] at h
+    rw [h] at c1 c4 c5
+    simp only at c1 c4 c5
+    have hreq : reqOK req ta na = true ∨ ¬ (na * ns ≤ ta + requested req) := by
+      cases req with
+      | absent => left; rfl
+      | malformed => exact absurd rfl hm
+      | parsed nd =>
+        by_cases hb : na * ns ≤ ta + nd
+        · left; simp [reqOK, hb]
+        · right; simpa [requested] using hb
+    refine ⟨?_, c1, fun hf => ?_, fun hs => ?_⟩
+    · simp only [windowOK, Bool.and_eq_true, Bool.or_eq_true, decide_eq_true_eq]
+      unfold userCap ns horizon at *
+      by_cases hdn : 0 ≤ d
+      · have := c4 hdn
+        refine ⟨by omega, ?_⟩
+        rcases hreq with hq | hq
+        · right; exact ⟨⟨by omega, by omega⟩, hq⟩
+        · exact absurd (by omega) hq
+      · have := c5 (by omega)
+        exact ⟨by omega, Or.inl (by omega)⟩
+    · have := c4 (s1 hf); omega
+    · have := c5 (s2 hs); omega
+  · cases h
+
+/-- nothing is issued for an unparsable, negative or over-24-h duration -/
+theorem c03_refused (fsec : Int → Int) (req : Req) (t1 t2 iat : Int)
+    (hbad : req = .malformed ∨ ∃ nd, req = .parsed nd ∧ (nd < 0 ∨ nd > userCap)) :
+    sshIssue KM.Gen.C03.shape KM.Gen.C03.maxCertificateLifetime fsec req t1 t2 iat = none ∧
+    x509Issue KM.Gen.C03.shape KM.Gen.C03.maxCertificateLifetime req t1 t2 iat = none := by
+  unfold sshIssue x509Issue
+  rw [c03_decision]
+  rcases hbad with h | ⟨nd, h, hn⟩
+  · subst h; simp
+  · subst h
+    rcases hn with hn | hn
+    · simp [hn]
+    · by_cases h0 : nd < 0 <;> simp [h0, hn]
+
+/-- non-vacuity: a one-hour request on a ten-second-old session at 2026-09-29 is issued for
+exactly one hour, and the default request on a 23 h 59 m old session for the remaining minute -/
+example : sshIssue KM.Gen.C03.shape KM.Gen.C03.maxCertificateLifetime truncSecs
+    (.parsed 3600000000000) 1790661645500000000 1790661645600000000 1790661635000000000
+    = some (1790661645, 1790665245) := by decide
+example : x509Issue KM.Gen.C03.shape KM.Gen.C03.maxCertificateLifetime
+    .absent 1790661645500000000 1790661645600000000 (1790661645000000000 - 86340000000000)
+    = some (1790661645, 1790661705) := by decide
+example : FloatSecs truncSecs := truncSecs_floatSecs
+
+/-- the float contract is what the driver's `judge secs` tests point by point on the real
+conversion: a conversion that passes `floatSecsAt` everywhere satisfies `FloatSecs`, and the
+truncating instance run by the driver does -/
+theorem c03_float_contract :
+    (∀ fsec : Int → Int, (∀ d, floatSecsAt d (fsec d) = true) → FloatSecs fsec) ∧ FloatSecs truncSecs :=
+  ⟨fun _ h => floatSecs_of_at h, truncSecs_floatSecs⟩
+
+/-- **As found**: the pinned tree's block (no test for negative requests) lets `duration=-600000h`
+through and the unsigned conversion wraps: `ValidBefore = 18446744073340210366` (≈ 2^64). -/
+theorem c03_ssh_unfixed_counterexample :
+    sshIssue shapeAsFound userCap truncSecs (.parsed (-2160000000000000000))
+      1790658750000000000 1790658750000000000 1790658750000000000
+      = some (1790658750, 18446744073340210366) ∧
+    sshOK (.parsed (-2160000000000000000)) 1790658750000000000 1790658750000000000
+      1790658750000000000 1790658750 18446744073340210366 = false := by
+  decide
+
+/-! ### fixed-lifetime certificates -/
+
+/-- **Role-requesting certificates**: both parameter parsers set `Duration` to the constant, the
+constant is at most 45 days, `withParamsGenerateRoleRequestingCert` hands it unchanged to
+`GenIPRestrictedX509Cert`, whose window is `[now, now + Duration]`. -/
+theorem c03_role (tb t ta : Int) (_h1 : tb ≤ t) (h2 : t ≤ ta) :
+    KM.Gen.C03.maxRoleRequestingCertDuration ≤ roleCap ∧ 0 ≤ KM.Gen.C03.maxRoleRequestingCertDuration ∧
+    fixedOK roleCap ta (x509Window t KM.Gen.C03.maxRoleRequestingCertDuration).1
+      (x509Window t KM.Gen.C03.maxRoleRequestingCertDuration).2 = true ∧
+    (x509Window t KM.Gen.C03.maxRoleRequestingCertDuration).2 * ns ≤ t + roleCap := by
+  have hc : KM.Gen.C03.maxRoleRequestingCertDuration ≤ roleCap ∧
+      0 ≤ KM.Gen.C03.maxRoleRequestingCertDuration := by decide
+  generalize KM.Gen.C03.maxRoleRequestingCertDuration = D at hc ⊢
+  simp only [x509Window]
+  simp only [fixedOK, Bool.and_eq_true, Bool.or_eq_true, decide_eq_true_eq]
+  unfold roleCap ns at *
+  refine ⟨hc.1, hc.2, ⟨by omega, Or.inr (by omega)⟩, by omega⟩
+
+/-- **AWS role certificates**: the template's window is `[now, now + 24 h]` and nothing between
+template creation and signing touches it. -/
+theorem c03_aws (tb t ta : Int) (_h1 : tb ≤ t) (h2 : t ≤ ta) :
+    KM.Gen.C03.awsTemplateLifetime ≤ awsCap ∧ 0 ≤ KM.Gen.C03.awsTemplateLifetime ∧
+    KM.Gen.C03.awsValidityMutations = 0 ∧
+    fixedOK awsCap ta (x509Window t KM.Gen.C03.awsTemplateLifetime).1
+      (x509Window t KM.Gen.C03.awsTemplateLifetime).2 = true := by
+  have hc : KM.Gen.C03.awsTemplateLifetime ≤ awsCap ∧ 0 ≤ KM.Gen.C03.awsTemplateLifetime ∧
+      KM.Gen.C03.awsValidityMutations = 0 := by decide
+  generalize KM.Gen.C03.awsTemplateLifetime = D at hc ⊢
+  simp only [x509Window]
+  simp only [fixedOK, Bool.and_eq_true, Bool.or_eq_true, decide_eq_true_eq]
+  unfold awsCap ns at *
+  exact ⟨hc.1, hc.2.1, hc.2.2, by omega, Or.inr (by omega)⟩
+
+/-! ### the expressions that become validity fields (regenerated table) -/
+
+/-- what the models above assume about the source, site by site -/
+def expectedFlow : List (String × List (List Char)) := [
+  ("GenIPRestrictedX509Cert.NotAfter", ["notAfter".toList]),
+  ("GenIPRestrictedX509Cert.NotBefore", ["notBefore".toList]),
+  ("GenIPRestrictedX509Cert.durationWrites", []),
+  ("GenIPRestrictedX509Cert.fieldWrites", ["0".toList]),
+  ("GenIPRestrictedX509Cert.notAfter", ["notBefore.Add(duration)".toList]),
+  ("GenIPRestrictedX509Cert.notBefore", ["time.Now()".toList]),
+  ("GenUserX509Cert.NotAfter", ["notAfter".toList]),
+  ("GenUserX509Cert.NotBefore", ["notBefore".toList]),
+  ("GenUserX509Cert.durationWrites", []),
+  ("GenUserX509Cert.fieldWrites", ["0".toList]),
+  ("GenUserX509Cert.notAfter", ["notBefore.Add(duration)".toList]),
+  ("GenUserX509Cert.notBefore", ["time.Now()".toList]),
+  ("awsCreateTemplateArg", ["template".toList]),
+  ("awsNotAfter", ["now.Add(time.Hour * 24)".toList]),
+  ("awsNotBefore", ["now".toList]),
+  ("awsNow", ["time.Now()".toList]),
+  ("roleCallers", ["roleRequetingCertGenHandler: params".toList,
+    "refreshRoleRequestingCertGenHandler: params".toList]),
+  ("roleDurationSources", ["parseRoleCertGenParams: maxRoleRequestingCertDuration".toList,
+    "parseRefreshRoleCertGenParams: maxRoleRequestingCertDuration".toList]),
+  ("roleGenDurationArg", ["params.Duration".toList]),
+  ("roleParamsDurationWrites", ["0".toList]),
+  ("sshCurrentEpoch", ["uint64(time.Now().Unix())".toList]),
+  ("sshDurationWrites", []),
+  ("sshExpireEpoch", ["currentEpoch + uint64(duration.Seconds())".toList]),
+  ("sshGenDurationArg", ["duration".toList]),
+  ("sshHandlerDurationWrites", []),
+  ("sshValidAfter", ["currentEpoch".toList]),
+  ("sshValidBefore", ["expireEpoch".toList]),
+  ("x509GenDurationArg", ["duration".toList]),
+  ("x509HandlerDurationWrites", [])]
+
+/-- **Sites**: the validity fields of every certificate kind are computed by exactly the
+expressions the models mirror, the duration reaches the generators unmodified, role parameters
+always carry the constant, and the AWS template is signed as created. -/
+theorem c03_sites : KM.Gen.C03.flow = expectedFlow := by decide
+
+end KM.Validity
